@@ -19,7 +19,7 @@ type StoredCase struct {
 	Order int `json:"order,omitempty"`
 }
 
-const NumStoredCells = 9
+const NumStoredCells = 10
 
 func pseudoRandom(n int, seed uint32) []byte {
 	b := make([]byte, n)
@@ -64,6 +64,16 @@ func storedCell(name string, m int, doc int) []spec.Field {
 		return []spec.Field{mk(true, big, 't')}
 	case 8:
 		return []spec.Field{mk(true, pseudoRandom(300, uint32(doc+1)), 'b', 2, 2)}
+	case 9:
+		// an array of 14 values under one field name (more than a dozen stored values in one
+		// document: their order is part of the contract)
+		var rv []spec.Field
+		for i := 0; i < 14; i++ {
+			f := mk(true, []byte(fmt.Sprintf("%s-elem-%02d", name, i)), 't', uint64(i))
+			f.Toks = []spec.Tok{{Term: fmt.Sprintf("e%d", i%3), Freq: 1}}
+			rv = append(rv, f)
+		}
+		return rv
 	}
 	panic("bad stored cell")
 }
@@ -116,11 +126,11 @@ func StoredBatches(tier string, emit func(StoredCase)) {
 	})
 	menu2 := full
 	if tier == "quick" {
-		menu2 = []int{0, 1, 2, 3, 5, 6, 8}
+		menu2 = []int{0, 1, 2, 3, 5, 6, 8, 9}
 	}
 	ProductOf(4, menu2, func(v []int) {
 		emit(StoredCase{N: 2, Cells: v, Mode: 1026})
-		if (v[0] == 6 && v[1] == 6) || (v[2] == 6 && v[3] == 6) {
+		if ((v[0] == 6 || v[0] == 9) && (v[1] == 6 || v[1] == 9)) || ((v[2] == 6 || v[2] == 9) && (v[3] == 6 || v[3] == 9)) {
 			emit(StoredCase{N: 2, Cells: v, Mode: 1026, Order: 2})
 			emit(StoredCase{N: 2, Cells: v, Mode: 1026, Order: 1})
 		}
